@@ -202,11 +202,12 @@ class Report:
         n_viol = 0
         n_known = 0
         lines = []
-        own = {k: v for k, v in self.acc.viol.items() if k[0] == self.prop}
+        # VF_ALL_PROPS=1 (mutation screening only): report what the exploration saw for every property, not just this one
+        own = {k: v for k, v in self.acc.viol.items() if k[0] == self.prop or os.environ.get('VF_ALL_PROPS')}
         known_hits = {}
         for (prop, sig), (count, examples) in sorted(own.items()):
             e = match_known(known, prop, sig)
-            if e is not None:
+            if e is not None and not os.environ.get('VF_ALL_PROPS'):
                 key = e.get('signature') or e.get('signature_prefix')
                 ent = known_hits.setdefault(key, [e, 0, 0])
                 ent[1] += count
